@@ -24,7 +24,7 @@ import datetime
 
 from . import tlv
 from .tlv import Node
-from .terms import (Leaf, Seq, Cho, Of, Ref, Tag, M, Grp, Rng, STRING_KINDS, TIME_KINDS,
+from .terms import (Leaf, Seq, Cho, Of, Ref, Tag, M, Rng, STRING_KINDS, TIME_KINDS,
                     all_members, enum_numbers)
 from .tagging import UNIVERSAL as UNIVERSAL_TAGS
 from . import absval
